@@ -11,9 +11,19 @@ CHECKS = {
  "C08": ("Recorded node_attractor_candidates calls under the option x configuration grid on every node kind; TLC checks Covers (every own attractor hit, full states inside the node) or error-with-nothing-cached; contract-level model checked on 2-variable networks.", "4/C08"),
  "C12": ("TLC checks set i = attractor of seed i for every recorded node_attractor_sets result under all query orders, reclamation, pickling, and the symbolic fallback forced by a tiny candidate limit.", "4/C12"),
  "C14": ("Model checking of {queries} x {six ways of giving a node successors} x reclaim on all 2-variable networks (CacheFresh in every state); every abstract transition with cached data is replayed in the library and compared (CACHE clause) by TLC.", "4/C14"),
+ "C06": ("Every intervention that recorded succession_control calls (fresh and already expanded/skipped/shortcut diagrams) report successful is re-derived by TLC: nested trap spaces, LDOI containment, and attractors of the overridden network recomputed from truth tables.", "4/C06"),
+ "C07": ("On fresh diagrams TLC builds the complete expected answer of succession_control from the full succession diagram (paths x motif products, inclusion-minimal driver sets with all forcing valuations, bounds, forbidden sets, flags) and compares it with the recorded output as a set with multiplicities.", "4/C07"),
+ "C09": ("One TLC-validated event per recorded trappist / compute_fixed_point_reduced_STG call against the set-theoretic definition over the enumerated trap spaces of the network and of its time reversal (all argument kinds, limits); consistency theorems model-checked on all 256 two-variable networks. Conformance of a pure function: adequate use of the tool, not its strength.", "4/C09"),
+ "C10": ("TLC checks, for every state of the subspace and every remaining variable, that the recorded Petri net / restricted net / percolated network enables exactly the moves of the update functions, on all two-variable and random 3-6 variable networks.", "4/C10"),
+ "C11": ("TLC recomputes the least fixed point of value propagation for every recorded percolate_space / strict / conflicts / LDOI / single-driver call (all subspaces of all two-variable networks; random ones on 3-6 variables) and model-checks idempotence and trap preservation as theorems.", "4/C11"),
+ "C15": ("Model checking with size/level/stack limits, max_motifs_per_node values and the k-th solver call failing, on all two-variable networks (valid partial diagram, fresh caches, return-value contract in every micro-state); TLC-generated and random limited histories and a solver-fault enumeration are replayed in the library and every event is recomputed by TLC, including the resumed call.", "4/C15"),
  "C20": ("DepthExact / IndexExact / contiguous ids checked by TLC on every logged state of TLC-generated and random histories (incl. skip operations and pickling), and ids/depths/index compared with the model after every call.", "4/C20"),
 }
 NOT_YET = {}
+ENGINE = {"C06": "tla-control", "C07": "tla-control", "C09": "tla-pure", "C10": "tla-pure", "C11": "tla-pure"}
+TECH = {"tla-sd": "explicit TLA+ spec (BoolNet/SD) model-checked with TLC + TLC trace validation of recorded library runs (SDTrace) + TLC-generated call histories replayed in the library",
+        "tla-pure": "explicit TLA+ definitions (BoolNet/PureTrace) evaluated by TLC on every recorded call (trace validation) + TLC-checked theorems (MC_Theorems)",
+        "tla-control": "explicit TLA+ definitions of succession control (ControlTrace over BoolNet) evaluated by TLC on every recorded succession_control call"}
 
 def main():
     props = [json.loads(l) for l in open("/verif/properties.jsonl")]
@@ -29,10 +39,10 @@ def main():
                 "thorough_cmd": f"./check {pid} --tier thorough",
                 "evidence_file": f"/verif/evidence/{pid}.json",
                 "replay_cmd_template": f"./check {pid} --replay {{path}}",
-                "engine": "tla-sd",
+                "engine": ENGINE.get(pid, "tla-sd"),
                 "level_claimed": {"category": "model_checking", "text": text, "design_ref": ref},
                 "level_note": "bounded: networks <= 6 variables (8 for gadget compositions), histories to the stated depth; trusted: TLC, BoolNet.tla definitions, harness renderer/projection/recorder",
-                "technique": "explicit TLA+ spec (BoolNet/SD) model-checked with TLC + TLC trace validation of recorded library runs (SDTrace) + TLC-generated call histories replayed in the library",
+                "technique": TECH[ENGINE.get(pid, "tla-sd")],
             })
         else:
             na.append({"property_id": pid, "reason": NOT_YET.get(pid, "check under construction in this round; see DESIGN.md section 4")})
@@ -42,8 +52,12 @@ def main():
                    "enable": "BIOBALM_VERIF=1 in the environment of the harness processes (pure-Python library, no build step); the recorder wraps the library from outside",
                    "baseline_off_cmd": "/verif/tools_baseline.sh",
                    "source_commits": [], "add_only": True},
-         "engines": [{"name": "tla-sd", "path": "/verif/spec", "serves_properties": sorted(CHECKS),
-                      "kind_free_text": "TLA+ specification (BoolNet.tla semantic oracle, SD.tla state machine, MC_SD.tla exhaustive small scope, SDTrace.tla trace validation) + Python recorder/driver"}],
+         "engines": [{"name": "tla-sd", "path": "/verif/spec", "serves_properties": sorted(p for p in CHECKS if ENGINE.get(p, "tla-sd") == "tla-sd"),
+                      "kind_free_text": "TLA+ specification (BoolNet.tla semantic oracle, SD.tla state machine, MC_SD.tla exhaustive small scope, SDTrace.tla trace validation) + Python recorder/driver"},
+                     {"name": "tla-pure", "path": "/verif/spec/PureTrace.tla", "serves_properties": ["C09", "C10", "C11"],
+                      "kind_free_text": "per-call validation of pure functions against BoolNet.tla definitions; MC_Theorems.tla"},
+                     {"name": "tla-control", "path": "/verif/spec/ControlTrace.tla", "serves_properties": ["C06", "C07"],
+                      "kind_free_text": "succession control re-derived by TLC from the full succession diagram"}],
          "checks": checks,
          "notes": "Checks exit 2 on machinery failure. known findings: /verif/known_findings.json",
          "not_applicable": na}
